@@ -43,7 +43,7 @@ def run_demo(tree, d):
         rc, out = sh("bash ./demo.sh", cwd=d, env=env, timeout=600)
     else:
         exe = "/tmp/demo-%s-%s" % (os.path.basename(tree), os.path.basename(d))
-        rc, out = sh("gcc -Wall -rdynamic -I%s/include -I%s/common -o %s demo.c -L%s/.libs -lxcm -lpthread -ldl 2>&1 | tail -5"
+        rc, out = sh("gcc -Wall -rdynamic -I%s/include -I%s/common -o %s demo.c -L%s/.libs -lxcm -lssl -lcrypto -lpthread -ldl 2>&1 | tail -5"
                      % (tree, tree, exe, tree), cwd=d)
         if not os.path.exists(exe):
             return None, "demo does not compile: " + out
